@@ -166,10 +166,19 @@ def once(ctx):
 
 def park(ctx):
     prog = ctx.prog
+    # the token is set by unpark and consumed by park, nothing else touches it: a generic `unblock` (used by every primitive) must not
+    # discard a pending token, or an unpark delivered before the target blocked on something else is lost
+    allowed = {"token_available": {T + "Task::park", T + "Task::unpark"},
+               "blocked_in_park": {T + "Task::park", T + "Task::unpark", T + "Task::unblock"}}
     for fld in ("token_available", "blocked_in_park"):
         w = kinds.writers_of_field(prog, T + "ParkState." + fld, None, kinds=("assign", "call_dst", "refmut"))
-        kinds.check_who_may(ctx, "C05.PK", "writer of ParkState." + fld, set(w), {T + "Task::park", T + "Task::unpark", T + "Task::unblock"},
+        kinds.check_who_may(ctx, "C05.PK", "writer of ParkState." + fld, set(w), allowed[fld],
                             {k: v[0][0].loc(v[0][1]) for k, v in w.items()})
+    # ... including by overwriting the whole ParkState (only the constructors build one)
+    ww = kinds.writers_of_field(prog, T + "Task.park_state", None, kinds=("assign", "call_dst", "refmut"))
+    ww = {k: v for k, v in ww.items() if any(last_field(b.at(s).get("dst", {"l": 0})) == T + "Task.park_state" or kind == "refmut" for b, s, kind in v)}
+    kinds.check_who_may(ctx, "C05.PK", "function replacing a task's whole ParkState", set(ww), {T + "Task::new"},
+                        {k: v[0][0].loc(v[0][1]) for k, v in ww.items()})
     pk = ctx.body(T + "Task::park", "C05.PK")
     fs = FlowSlicer(pk)
     bl = [s for s, t in pk.calls() if T + "Task::block" in pk.callees_of_call(t, passed=False)]
